@@ -123,7 +123,7 @@ def run(tier, seed):
     p11.collapse_probe(res, rng, tier, bad)
     # ---- whole loop-body passes with the linear-rk4 integrator replayed through Model/Traj.step_rk4
     import ptraj
-    tc, tmeta = ptraj.collect(res, rng, 7 if tier == "quick" else 100, 30 if tier == "quick" else 800, kind="sh", integ="rk4")
+    tc, tmeta = ptraj.collect(res, rng, 8 if tier == "quick" else 100, 56 if tier == "quick" else 800, kind="sh", integ="rk4")
     f4, e4 = run_case_check("C02traj", ptraj.PRELUDE_T, "caseT", "chkTr", tc, per_file=4, timeout=1500)
     for e in e4:
         res.violation("model evaluation failed (coqc)", dict(kind="coqc-error", log=e, no_failing_input_found=True))
